@@ -202,6 +202,9 @@ def render(case):
             body += [".. method-selector::", "", "   .. method-option::", "      :id: driver", "", "      .. method-description::", "", "         Desc.", "",
                      "      Body.", "", "   .. method-option::", "      :id: cli", "", "      .. method-description::", "", "         Desc 2.", "", "      Body 2.", ""]
         files["source/" + fid] = "\n".join(head + body) + "\n"
+        if p.get("crlf"):
+            # the same page saved with Windows line ends: same lines, same problems at the same lines
+            files["source/" + fid] = ("\r\n".join(head + body) + "\r\n").encode("utf-8")
         for b in p["blocks"]:
             if b["t"] == "bad_image_file":
                 files[f"source/images/garbage-{b['n']}.png"] = b"this is not a png file\n"
@@ -345,6 +348,10 @@ def run_repair(case):
         else:
             ops.append({"op": "update", "path": t["path"], "text": files["source/" + t["path"]], "via": case.get("via", "disk")})
         ops.append({"op": "postprocess"})
+    for o in ops:
+        if isinstance(o.get("text"), bytes):          # a page saved with other line ends / another encoding: raw bytes
+            o["text"] = {"hex": o["text"].hex()}
+            o["via"] = "disk"
     res = c12_e2e.run_history({"mode": "disk", "files": hexify(files), "ops": ops}, alias_probe=False)
     return {"checks": res["checks"], "exc": res["exc"]}
 
@@ -671,6 +678,8 @@ class C14(core.PropertyCheck):
         for p in pages:
             if rng.random() < 0.3:
                 p["selector"] = rng.choice(["tabs", "tabs", "method", "both", "both_inc"])
+            if rng.random() < 0.15:
+                p["crlf"] = True
         includes = []
         for i in range(rng.choice([0, 1, 1, 2])):
             inc = {"name": f"shared-{i}", "blocks": blocks(PAGE_FAULTS, 1, 3, 0.8)}
@@ -692,9 +701,12 @@ class C14(core.PropertyCheck):
                                                                    for j in range(rng.choice([1, 2]))]})
         if rng.random() < 0.25:
             yamls.append({"type": rng.choice(["steps", "extracts"]), "name": "bad", "invalid": True})
-        if rng.random() < 0.15:
+        if rng.random() < 0.2:
+            # an image file whose size cannot be determined - shown by one page, or the SAME file by several pages: each page that
+            # shows it is told so
             counter[0] += 1
-            rng.choice(pages)["blocks"].append({"t": "bad_image_file", "n": counter[0]})
+            for p in rng.sample(pages, min(len(pages), rng.choice([1, 2, 2, 3]))):
+                p["blocks"].append({"t": "bad_image_file", "n": counter[0]})
         cfg = {"bad_substitutions": rng.choice([[1], [2], [1, 2]]) if rng.random() < 0.3 else [],
                "bad_banners": rng.choice([[1], [2], [2, 3]]) if rng.random() < 0.25 else [],
                "fail": rng.random() < 0.5}
@@ -749,6 +761,9 @@ class C14(core.PropertyCheck):
                     case["yaml"] = [{"type": "extracts", "name": "x", "docs": [{"ref": "ex0", "blocks": [{"t": "text", "n": 3}, {"t": t, "n": 2}]}]}]
                     pages[1]["blocks"].append({"t": "use_extract", "name": "ex0", "n": 4})
                 yield case
+        for t in PAGE_FAULTS:
+            pages = [{"name": "index", "toc": True, "blocks": []}, {"name": "alpha", "toc": True, "crlf": True, "blocks": [{"t": "text", "n": 1}, {"t": t, "n": 2}]}]
+            yield {"kind": "e2e", "pages": pages, "includes": [], "yaml": [], "config": dict(base_cfg), "toc_missing": []}
         for style in ("plain", "multibyte", "crlf", "cr"):
             pages = [{"name": "index", "toc": True, "blocks": []}, {"name": "alpha", "toc": True, "blocks": [{"t": "text", "n": 1}]}]
             yield {"kind": "e2e", "pages": pages, "includes": [], "yaml": [], "config": dict(base_cfg), "toc_missing": [],
@@ -1219,6 +1234,16 @@ class C14(core.PropertyCheck):
             for d in ds:
                 if not any(f["file"] == p and fault_matches(f, d) for f in faults):
                     return f"misfiled: {d['c']} line {d['rl']} delivered under {p}, which holds no seeded fault it could report ({impl['messages'].get(str(d['t']), ['?'])[-1][:80]})"
+        # (3') a page that shows an image whose size cannot be determined is told so (through the asset channel of the command-line
+        #      backend), however many other pages show the same file
+        if "ImageSizeUndetermined" not in silence:
+            for p_ in case["pages"]:
+                if any(b["t"] == "bad_image_file" for b in p_["blocks"]):
+                    fid = p_["name"] + ".txt"
+                    if not any(pth == fid and d["c"] == "ImageSizeUndetermined" for pth, ds, _ in impl["on"] for d in ds):
+                        others = sorted({pth for pth, ds, _ in impl["on"] for d in ds if d["c"] == "ImageSizeUndetermined"})
+                        return (f"missing: {fid} shows an image whose size cannot be determined but no ImageSizeUndetermined was delivered "
+                                f"under it (delivered under {others})")
         # (4) final set == union of what was delivered per file: no drop, no invention, no duplication
         on = per_file([[p, ds] for p, ds, src in impl["on"] if src == "project"])
         for p in sorted(set(on) | set(final)):
@@ -1264,8 +1289,10 @@ class C14(core.PropertyCheck):
             return f"store-{head}"
         if head in ("stale", "lost"):
             return f"repair-{head}:" + desc.split("delivers ")[1].split(" ")[0] + ":" + case["target"]["type"] + ":" + case["how"]
-        if head == "missing":
+        if head == "missing" and "seeded " in desc:
             return "missing:" + desc.split("seeded ")[1].split(" ")[0] + ":" + desc.split("(in ")[1].split(")")[0]
+        if head == "missing":
+            return "missing:asset-diagnostic"
         return head
 
     # ---- real process exit status ----------------------------------------------------------
